@@ -45,7 +45,7 @@ class Formula:
             if p in PARAMS:
                 self.env[p] = PARAMS[p]
         self.skipped: list[str] = []
-        self.ret = self.block(f.body)
+        self.ret = self.block(f.explicit_body)
         if self.ret is None:
             raise AnalysisError(f'{f.file}:{f.line}: {f.qualname} returns nothing on the generic path of configuration {cfg}')
 
